@@ -2168,3 +2168,47 @@ V("C06", "benign_queue_slot_handed_over_by_index", "benign", None, (Z, "        
 V("C07", "benign_queue_slot_handed_over_by_index", "benign", None, (Z, "                        pending[:] = [watcher if q is w else q for q in pending]", "                        for i, q in enumerate(pending):\n                            if q is w:\n                                pending[i] = watcher"))
 V("C14", "edit_constant_unlocks_the_class_level_parameter", "fire", "R14.x", (Z, "            pobj = parameterized.param[pname]\n            pobj.constant = False", "            pobj.constant = False"))
 V("C14", "benign_own_parameter_looked_up_under_another_name", "benign", None, (Z, "            pobj = parameterized.param[pname]\n            pobj.constant = False\n            updated.append((pname, pobj))", "            own = parameterized.param[pname]\n            own.constant = False\n            updated.append((pname, own))"))
+# --- round j
+NG = "numbergen/__init__.py"
+V("C01", "hex_colour_of_three_to_six_digits", "fire", "R01.r", (P, "'^#?(([0-9a-fA-F]{2}){3}|([0-9a-fA-F]){3})$'", "'^#?[0-9a-fA-F]{3,6}$'"))
+V("C01", "hex_colour_lowercase_only", "fire", "R01.r", (P, "'^#?(([0-9a-fA-F]{2}){3}|([0-9a-fA-F]){3})$'", "'^#?(([0-9a-f]{2}){3}|([0-9a-f]){3})$'"))
+V("C01", "benign_hex_colour_as_one_or_two_triples", "benign", None, (P, "'^#?(([0-9a-fA-F]{2}){3}|([0-9a-fA-F]){3})$'", "'^#?([0-9a-fA-F]{3}){1,2}$'"))
+V("C01", "benign_hex_colour_case_insensitive_flag", "benign", None, (P, "re.match('^#?(([0-9a-fA-F]{2}){3}|([0-9a-fA-F]){3})$', val)", "re.match('^#?([0-9a-f]{6}|[0-9a-f]{3})$', val, re.IGNORECASE)"))
+V("C02", "first_evaluation_installs_the_invalidators", "fire", "R02.v", (R, "    def _resolve(self):\n        if self._error_state:\n            raise self._error_state", "    def _resolve(self):\n        if not getattr(self, '_wired', False):\n            self._wired = True\n            self._setup_invalidations(0)\n        if self._error_state:\n            raise self._error_state"))
+V("C03", "instance_watcher_table_from_a_shared_default", "fire", "R03.k", (Z, "        self.watchers = {} if watchers is None else watchers\n", "        self.watchers = _NO_WATCHERS if watchers is None else watchers\n"), (Z, "class _ClassPrivate:\n", "_NO_WATCHERS = {}\n\n\nclass _ClassPrivate:\n"))
+V("C03", "benign_state_template_with_fresh_queues", "benign", None, (Z, """            parameters_state = {
+                "BATCH_WATCH": False, # If true, Event and watcher objects are queued.
+                "TRIGGER": False,
+                "events": [], # Queue of batched events
+                "watchers": [] # Queue of batched watchers
+            }
+        self.parameters_state = parameters_state
+        self.disable_instance_params""", """            parameters_state = dict(_STATE_FLAGS, events=[], watchers=[])
+        self.parameters_state = parameters_state
+        self.disable_instance_params"""), (Z, "class _ClassPrivate:\n", "_STATE_FLAGS = {\"BATCH_WATCH\": False, \"TRIGGER\": False}\n\n\nclass _ClassPrivate:\n"))
+V("C03", "trigger_type_only_for_identical_objects", "fire", "R03.d", (Z, "        if triggered:\n            event_type = 'triggered'", "        if triggered and event.old is event.new:\n            event_type = 'triggered'"))
+V("C04", "benign_flush_skips_a_watcher_without_events", "benign", None, (Z, "                          if (name, watcher.what) in event_dict]\n                with _batch_call_watchers", "                          if (name, watcher.what) in event_dict]\n                if not events:\n                    continue\n                with _batch_call_watchers"))
+V("C03", "benign_flush_skips_a_watcher_without_events", "benign", None, (Z, "                          if (name, watcher.what) in event_dict]\n                with _batch_call_watchers", "                          if (name, watcher.what) in event_dict]\n                if not events:\n                    continue\n                with _batch_call_watchers"))
+V("C04", "flush_leaves_batching_on_for_the_rest_of_the_pass", "fire", "R04.h", (Z, "                with _batch_call_watchers(self_.self_or_cls, enable=watcher.queued, run=False):\n                    self_._execute_watcher(watcher, events)\n    # Please update", "                if watcher.queued:\n                    self_._BATCH_WATCH = True\n                self_._execute_watcher(watcher, events)\n            self_._BATCH_WATCH = False\n    # Please update"))
+V("C06", "instance_binding_cached_by_parameter_name", "fire", "R06.m", (Z, "        dep = PInfo(inst=inst, cls=dep.cls, name=dep.name,\n                    pobj=inst.param[dep.name], what=dep.what)\n        dependencies.append(dep)", "        key = (id(inst), dep.name)\n        if key not in bound:\n            bound[key] = PInfo(inst=inst, cls=dep.cls, name=dep.name,\n                               pobj=inst.param[dep.name], what=dep.what)\n        dependencies.append(bound[key])"), (Z, "    dependencies = []\n    for dep in resolved:\n        if not issubclass(type(obj), dep.cls):", "    dependencies = []\n    bound = {}\n    for dep in resolved:\n        if not issubclass(type(obj), dep.cls):"))
+V("C06", "benign_instance_binding_cached_by_name_and_kind", "benign", None, (Z, "        dep = PInfo(inst=inst, cls=dep.cls, name=dep.name,\n                    pobj=inst.param[dep.name], what=dep.what)\n        dependencies.append(dep)", "        key = (id(inst), dep.name, dep.what)\n        if key not in bound:\n            bound[key] = PInfo(inst=inst, cls=dep.cls, name=dep.name,\n                               pobj=inst.param[dep.name], what=dep.what)\n        dependencies.append(bound[key])"), (Z, "    dependencies = []\n    for dep in resolved:\n        if not issubclass(type(obj), dep.cls):", "    dependencies = []\n    bound = {}\n    for dep in resolved:\n        if not issubclass(type(obj), dep.cls):"))
+V("C06", "slot_events_through_the_class_namespace", "fire", "R06.t", (Z, "        for watcher in self.watchers[attribute]:\n            self.owner.param._call_watcher(watcher, event)\n        if not self.owner.param._BATCH_WATCH:\n            self.owner.param._batch_call_watchers()", "        ns = (self.owner if isinstance(self.owner, type) else type(self.owner)).param\n        for watcher in self.watchers[attribute]:\n            ns._call_watcher(watcher, event)\n        if not ns._BATCH_WATCH:\n            ns._batch_call_watchers()"))
+V("C04", "slot_events_through_the_class_namespace", "fire", "R04.v", (Z, "        for watcher in self.watchers[attribute]:\n            self.owner.param._call_watcher(watcher, event)\n        if not self.owner.param._BATCH_WATCH:\n            self.owner.param._batch_call_watchers()", "        ns = (self.owner if isinstance(self.owner, type) else type(self.owner)).param\n        for watcher in self.watchers[attribute]:\n            ns._call_watcher(watcher, event)\n        if not ns._BATCH_WATCH:\n            ns._batch_call_watchers()"))
+V("C06", "benign_slot_events_through_an_alias_of_the_owner_namespace", "benign", None, (Z, "        for watcher in self.watchers[attribute]:\n            self.owner.param._call_watcher(watcher, event)\n        if not self.owner.param._BATCH_WATCH:\n            self.owner.param._batch_call_watchers()", "        ns = self.owner.param\n        for watcher in self.watchers[attribute]:\n            ns._call_watcher(watcher, event)\n        if not ns._BATCH_WATCH:\n            ns._batch_call_watchers()"))
+V("C07", "path_helper_stops_at_a_falsy_value", "fire", "R07.g", (Z, "    def _getattr(obj, attr):\n        return getattr(obj, attr, *args)\n    return reduce(_getattr, [obj] + attr.split('.'))", "    for name in attr.split('.'):\n        obj = getattr(obj, name, *args)\n        if args and not obj:\n            return args[0]\n    return obj"))
+V("C07", "benign_path_helper_as_a_loop", "benign", None, (Z, "    def _getattr(obj, attr):\n        return getattr(obj, attr, *args)\n    return reduce(_getattr, [obj] + attr.split('.'))", "    for name in attr.split('.'):\n        obj = getattr(obj, name, *args)\n    return obj"))
+V("C07", "change_filter_compares_each_relative_path_once", "fire", "R07.k", (Z, "    for e in events:\n        if isinstance(changed, dict):\n            # Sub-parameters to compare, per watched parameter", "    compared = set()\n    for e in events:\n        if isinstance(changed, dict):\n            # Sub-parameters to compare, per watched parameter"), (Z, "        for p, what in subparams:\n            if what == 'value':\n                old = Undefined if e.old is None else _getattrr(e.old, p, None)", "        for p, what in subparams:\n            if (p, what) in compared:\n                continue\n            compared.add((p, what))\n            if what == 'value':\n                old = Undefined if e.old is None else _getattrr(e.old, p, None)"))
+V("C08", "skip_of_one_reference_ends_the_sync", "fire", "R08.e", (Z, "            try:\n                new_val = resolve_value(ref, recursive)\n            except Skip:\n                new_val = Undefined\n            if new_val is Skip or new_val is Undefined:\n                continue", "            try:\n                new_val = resolve_value(ref, recursive)\n            except Skip:\n                break\n            if new_val is Skip or new_val is Undefined:\n                continue"))
+V("C11", "benign_crosstalk_copy_in_a_loop_of_its_own", "benign", None, (Z, "            setattr(param, slot, value)\n\n            # Avoid crosstalk between mutable slot values in different Parameter objects\n            if slot != \"default\":\n                v = getattr(param, slot)\n                if _is_mutable_container(v):\n                    setattr(param, slot, copy.copy(v))\n", "            setattr(param, slot, value)\n\n        # Avoid crosstalk between mutable slot values in different Parameter objects\n        for slot in slot_values:\n            if slot != \"default\":\n                v = getattr(param, slot)\n                if _is_mutable_container(v):\n                    setattr(param, slot, copy.copy(v))\n"))
+V("C12", "instance_copy_carries_only_changed_values", "fire", "R12.i", (Z, "            params = self_or_cls.param.values()\n            params.update(p)\n            params.pop('name')", "            params = self_or_cls.param.values(onlychanged=True)\n            params.update(p)\n            params.pop('name', None)"))
+V("C14", "class_route_returns_early_for_the_identical_object", "fire", "R14.p", (Z, "            if owning_class != mcs:\n                parameter = copy.copy(parameter)", "            if value is parameter.default:\n                return\n            if owning_class != mcs:\n                parameter = copy.copy(parameter)"))
+V("C14", "set_default_writes_the_slot_directly", "fire", "R14.d", (Z, "        cls = self_.cls\n        setattr(cls,param_name,value)", "        self_.cls.param[param_name].default = value"))
+V("C15", "benign_none_guard_as_a_conditional_expression", "benign", None, (P, "    def serialize(cls, value):\n        if value is None:\n            return None\n        return list(value) # As JSON has no tuple representation", "    def serialize(cls, value):\n        return None if value is None else list(value)"))
+V("C16", "benign_none_guard_as_a_conditional_expression", "benign", None, (P, "    def serialize(cls, value):\n        if value is None:\n            return None\n        return list(value) # As JSON has no tuple representation", "    def serialize(cls, value):\n        return None if value is None else list(value)"))
+V("C16", "empty_tuple_serialized_as_null", "fire", "R16.n", (P, "    def serialize(cls, value):\n        if value is None:\n            return None\n        return list(value) # As JSON has no tuple representation", "    def serialize(cls, value):\n        return list(value) if value else None"))
+V("C16", "first_numeric_class_of_a_tuple_wins", "fire", "R16.k", ("param/serializer.py", "            return {'anyOf': [cls.class__schema(cls_) for cls_ in class_]}", "            numeric = [c for c in class_ if c in (int, float)]\n            rest = [c for c in class_ if c not in (int, float)]\n            return {'anyOf': [cls.class__schema(cls_) for cls_ in numeric[:1] + rest]}"))
+V("C18", "labels_left_to_inheritance_for_a_list", "fire", "R18.p", (P, "        else:\n            self.names = {}\n            self._objects = objects", "        else:\n            self.names = {} if getattr(self, 'name', None) is not None else Undefined\n            self._objects = objects"))
+V("C19", "hash_memo_keyed_by_python_hash", "fire", "R19.m", (NG, "        pairs = [self._rational(val) for val in vals]\n", "        memo = self.__dict__.setdefault('_memo', {})\n        if hash(vals) in self._memo:\n            return self._memo[hash(vals)]\n        pairs = [self._rational(val) for val in vals]\n"))
+V("C19", "benign_hash_memo_keyed_by_the_inputs", "benign", None, (NG, "        pairs = [self._rational(val) for val in vals]\n", "        self.__dict__.setdefault('_memo', {})\n        if vals in self._memo:\n            return self._memo[vals]\n        pairs = [self._rational(val) for val in vals]\n"))
+V("C20", "dict_values_compared_in_insertion_order", "fire", "R20.e", (Z, "        for k in obj1:\n            if k in obj2:\n                if not cls.is_equal(obj1[k], obj2[k]):\n                    return False\n            else:\n                return False\n        return True", "        if obj1.keys() != obj2.keys():\n            return False\n        return cls.compare_iterator(list(obj1.values()), list(obj2.values()))"))
+V("C18", "list_subclass_equal_to_a_plain_list", "fire", "R18.q", (Z, "    def compare_iterator(cls, obj1, obj2):\n        if type(obj1) is not type(obj2) or len(obj1) != len(obj2):", "    def compare_iterator(cls, obj1, obj2):\n        if not (isinstance(obj1, type(obj2)) or isinstance(obj2, type(obj1))) or len(obj1) != len(obj2):"))
